@@ -16,6 +16,11 @@ type Sub struct {
 	Q *Sub
 }
 
+// Twice has a VALUE receiver, Avail a POINTER receiver (its name sorts before Twice in the method set of *Sub):
+// the same struct type is reached by value (F.SV) and through pointers (F.P).
+func (s Sub) Twice() int64  { return 2 * s.V }
+func (s *Sub) Avail() int64 { return s.V - 1 }
+
 // Hidden is harness-side state reachable from fact methods.
 type Hidden struct {
 	HeavyCalls int
@@ -69,6 +74,7 @@ type Fact struct {
 	SelArr []int64
 	Grid   [][]int64                   // two selector levels
 	Book   map[string]map[string]int64 // two selector levels
+	SV     Sub                         // a struct held by value (F.P holds the same type behind a pointer)
 	MK     map[int64]int64             // integer keys
 	A3     [3]int64                    // a Go array (not a slice)
 	// values behind a pointer / inside an interface (what decoded settings look like)
@@ -334,6 +340,9 @@ func (f *Fact) Dump() string {
 	}
 	if f.BI != 0 {
 		fmt.Fprintf(&b, " BI:%d", f.BI)
+	}
+	if f.SV != (Sub{}) {
+		fmt.Fprintf(&b, " SV:{V:%d S:%q}", f.SV.V, f.SV.S)
 	}
 	if f.MK != nil {
 		fmt.Fprintf(&b, " MK:%v", f.MK) // fmt prints maps with sorted keys
